@@ -127,3 +127,70 @@ def method(tree, name, coqname, args, result):
     rt = {"unit": "unit", "int": "Z", "set": "list pytagjob"}[result]
     return "Definition %s (jobs : list pytagjob) %s : res (list pytagjob * %s) :=\n  %s.\n" % (
         coqname, " ".join("(%s : %s)" % (a, t) for a, t in args), rt, body)
+
+
+# ---- asyncio front end: Scheduler._jobs is a dict Job -> Task ---------------------------------------------
+AIO_DELETE = """
+try:
+    task: aio.Task[None] = self._jobs.pop(job)
+    _: bool = task.cancel()
+except KeyError:
+    raise SchedulerError('An unscheduled Job can not be deleted!') from None
+"""
+AIO_JOBS = "return set(self._jobs.keys())"
+
+
+class AioReg(Reg):
+    """state: (jobs, cancels) - the dict's keys and the identities whose task.cancel() was called, in order"""
+    KEYS = ("set(self._jobs.keys())", "self.jobs")
+
+    def ret(self, value):
+        return "(Ok (jobs, cancels, %s))" % value
+
+    def setexpr(self, n):
+        if ast.unparse(n) in self.KEYS:
+            return [], "jobs"
+        if isinstance(n, ast.Call) and ast.unparse(n.func) == "select_jobs_by_tag" and len(n.args) == 3 and not n.keywords \
+                and ast.unparse(n.args[1]) == "tags" and ast.unparse(n.args[2]) == "any_tag":
+            if not self.narrowed:
+                fail(n, "select_jobs_by_tag with tags that may be None")
+            b, a = self.setexpr(n.args[0])
+            return b + [("sel", "(select_jobs_by_tag %s tags_v any_tag)" % a)], "sel"
+        return Reg.setexpr(self, n)
+
+    def block(self, stmts):
+        if stmts:
+            s, rest = stmts[0], stmts[1:]
+            if isinstance(s, ast.Try):
+                if ast.dump(s) != ast.dump(ast.parse(AIO_DELETE).body[0]):
+                    fail(s, "try statement differs from the known pop/cancel/KeyError form")
+                return ("(if tagjob_mem job jobs then (let jobs := tagjob_remove job jobs in (let cancels := cancels ++ [ptj_id job] in %s)) "
+                        "else (Err SchedulerError))" % self.block(rest))
+            if isinstance(s, ast.AnnAssign) and s.value is None and isinstance(s.target, ast.Name):
+                return self.block(rest)       # a bare annotation
+            if isinstance(s, ast.AnnAssign) and s.value is not None and isinstance(s.target, ast.Name):
+                return self.block([ast.Assign(targets=[s.target], value=s.value)] + rest)
+            if isinstance(s, ast.If) and ast.unparse(s.test) == "tags is None or tags == set()" and not self.narrowed:
+                # both branches assign locals and fall through: the continuation is translated in each
+                return Reg.block(self, stmts)
+            if isinstance(s, ast.For) and not s.orelse and isinstance(s.target, ast.Name) and isinstance(s.iter, ast.Name) \
+                    and self.locals.get(s.iter.id) == "set" and len(s.body) == 1 \
+                    and ast.unparse(s.body[0]) == "self.delete_job(%s)" % s.target.id:
+                return ("(bind (foldM (fun st job => aio_delete_job (fst st) (snd st) job) %s (jobs, cancels)) "
+                        "(fun st => (let jobs := fst st in (let cancels := snd st in %s))))" % (s.iter.id, self.block(rest)))
+        return Reg.block(self, stmts)
+
+
+def aio_method(tree, name, coqname, args, result, strip_unit=False):
+    fd = find_method(tree, "Scheduler", name)
+    got = [a.arg for a in fd.args.args[1:]]
+    if got != [a for a, _ in args] or fd.args.kwonlyargs or fd.args.vararg or fd.args.kwarg:
+        fail(fd, "signature of %s" % name)
+    body = AioReg(fd, result).block(list(fd.body))
+    rt = {"unit": "unit", "int": "Z", "set": "list pytagjob"}[result]
+    if strip_unit:
+        # used inside a fold: state only
+        return ("Definition %s (jobs : list pytagjob) (cancels : list nat) %s : res (list pytagjob * list nat) :=\n"
+                "  bind %s (fun r => Ok (fst r)).\n" % (coqname, " ".join("(%s : %s)" % (a, t) for a, t in args), body))
+    return "Definition %s (jobs : list pytagjob) (cancels : list nat) %s : res (list pytagjob * list nat * %s) :=\n  %s.\n" % (
+        coqname, " ".join("(%s : %s)" % (a, t) for a, t in args), rt, body)
